@@ -187,7 +187,16 @@ fn small_dir(rng: &mut Prng, dim: usize) -> Vec<i64> {
 /// A different correct witness for a non-empty polytope, chosen by the PRNG.
 fn legal_alternative(rng: &mut Prng, poly: &Polytope, real_w: &Array1<f64>, tol: bool) -> Option<(Array1<f64>, String)> {
     let dim = poly.mat.ncols();
-    let rows = poly_rows(poly)?;
+    let mut rows = poly_rows(poly)?;
+    // Alternatives are searched inside a box around the origin that contains the backend's own point.
+    // The polytope the backend sees may be a rounded version of the path polytope (normalized rows,
+    // coefficients that are products of floats): rows that are opposite only up to rounding open
+    // wedges 1e16 away that are feasible for the rounded system only.
+    let reach = real_w.iter().fold(0.0f64, |m, v| m.max(v.abs()));
+    if !(reach.is_finite()) || reach > 1e4 {
+        return None;
+    }
+    rows.extend(crate::model::box_rows(dim, (4.0 * reach).max(16.0)));
     let wd = width(dim, &rows);
     if !wd.nonempty() {
         return None;
